@@ -2,6 +2,7 @@
 import json
 
 CLAIMED = {
+    'C20': ('clisim', '3 (C20)', 'the command line as a system: emsarray.cli.main(argv) in forked lifetimes (sampled real `python -m emsarray` subprocesses), argv and files owned by the simulator: bounds / GeoJSON string / file geometries, CSV tables with hits, vertex hits and misses under each policy, each export format explicit or guessed; user faults with real files must end non-zero with a message; storage faults and crashes mid-command followed by the re-run with leftover --work_dir and half-written output; several invocations per process; exit-0 outputs compared with the library call made in another process; strict independent grammar for bounds'),
     'C08': ('clipsim', '3 (C08)', 'the clip pipeline as a multi-file durable operation: per-variable writes into a caller-owned work_dir recombined lazily; seeded plans over 1-3 process lifetimes of make/save/load mask, apply to original or second dataset, one-step clip, load, save, drop_work (also too early), reopen, clip-of-clip, retry, with the nth write failing / leaving a partial file / crashing, open_mfdataset failing, dask tasks failing and completing in seeded order; values judged cell by cell against a reference model with unique values'),
     'C09': ('clipsim', '3 (C09)', 'same executions as C08 with the validity/geometry oracle: convention re-detected before saving and after reopen in another lifetime (ack-then-crash included), polygons rebuilt from raw arrays by the generator rules, mesh connectivity mapped back through the selection, integer type and start_index on disk, select_variables on inputs and results, clip of a clip'),
     'C16': ('keysim', '3 (C16)', 'the cache key serialises attributes with marshal, whose bytes depend on reference counts and interning, i.e. on the process history of the dataset object, and the statement quantifies over processes: histories of copy / pickle / hold-references / gc / touch / load, non-geometry edits and single geometry edits over in-memory, file, reopened and time-split multi-file materialisations, plus fresh interpreters with other PYTHONHASHSEEDs reading the same files; history oracle over key events (equal within a geometry class, different across a geometry edit), with a diagnostic canonical key to attribute a moved key to its cause'),
